@@ -24,7 +24,14 @@ class Sem:
         self.lang = lang            # 'fortran' | 'c' | 'python'
         self.int_mode = int_mode
         self.width = width
-        self.isort = z3.IntSort() if int_mode == 'int' else z3.BitVecSort(width)
+        # 'asreal': INTEGER-typed variables and literals are read as exact rationals (used to tell apart rewrites that
+        # are valid over the rationals but not under truncating division)
+        if int_mode == 'int':
+            self.isort = z3.IntSort()
+        elif int_mode == 'asreal':
+            self.isort = z3.RealSort()
+        else:
+            self.isort = z3.BitVecSort(width)
         self.defined = []           # list of Bool terms that must hold for the evaluation to be defined / in bound
         self.ranges = []            # range constraints of declared variables / uninterpreted applications
         self.int_vars = []
@@ -93,7 +100,7 @@ class Sem:
 
     # ---- kinds
     def is_int(self, t):
-        return z3.is_expr(t) and t.sort() == self.isort
+        return self.int_mode != 'asreal' and z3.is_expr(t) and t.sort() == self.isort
 
     @staticmethod
     def is_bool(t):
@@ -110,6 +117,8 @@ class Sem:
         return v
 
     def int_lit(self, v):
+        if self.int_mode == 'asreal':
+            return z3.RealVal(int(v))
         t = z3.IntVal(int(v)) if self.int_mode == 'int' else z3.BitVecVal(int(v), self.width)
         return self.setmag(t, abs(int(v)))
 
@@ -262,6 +271,13 @@ class Sem:
                 self.setmag(res, self._m(lambda x: max(1, x) ** PMAX, a))
             return res
         a = self.to_real(a)
+        sb = z3.simplify(b) if self.real_mode == 'real' else None
+        if sb is not None and z3.is_rational_value(sb) and sb.denominator_as_long() == 1 \
+                and 0 <= sb.numerator_as_long() <= PMAX:
+            r = z3.RealVal(1)
+            for _ in range(sb.numerator_as_long()):
+                r = r * a
+            return r
         return self.f['powr'](a, self.to_real(b))
 
     # ---- relations
